@@ -37,6 +37,9 @@ ASSUMPTIONS = [
     'the forms stream exercises both and a lone \\r is never generated',
     'non-ASCII letters/digits outside string literals and exponents above 200000 are outside the Lean model (ASCII \\w/\\d, exact '
     'rational literals): such texts are judged by the oracles on the implementation only',
+    'host-only string values (lone surrogates, and every non-ASCII blank / digit / letter class of CPython re) cannot be written in the Lean '
+    'model (String = scalar values, ASCII classes): the host-text stream has implementation-side oracles only; the message formatting '
+    '(elision, caret) has no driver operation: theorems on the model arithmetic + exhaustive implementation-side sweep (caret stream)',
 ]
 LEVEL_TEXT = ('Theorems about the Lean model of parse_script (line splitter + continuation joiner, line classifier, token scanners, '
               'stack-based lowering): every error carries line number = start + index of the first physical line of the logical line, '
@@ -53,9 +56,15 @@ LEVEL_TEXT = ('Theorems about the Lean model of parse_script (line splitter + co
               'stream crosses every diagnostic kind with every start line (omitted, 1, 0, negative, > 2**31) and every layout of the offending '
               'logical line (continued over several physical lines, comments inside the continuation, lone backslash in front), the '
               'deferred diagnostics (block / function left open) included: error, joined line text and first-physical-line number are known '
-              'by construction and from the one-line spelling.')
+              'by construction and from the one-line spelling; the `caret` stream puts the fault at every column of every line length 0..400 '
+              '(message formatting: complete; real parser faults: every column of the lengths around the elision borders, all statement kinds); '
+              'the `host-text` stream runs every character class only a host string has (lone surrogates, byte order mark, NUL, the line '
+              'separators of str.splitlines, Unicode blanks / digits / letters, astral and non-characters) through every place of a script, '
+              'implementation-side oracles only.')
 LEVEL_NOTE = ('Trusted: Lean kernel; extract.py; correspondence harness. Modelled not verified: CPython re. Python recursion limit '
-              '(nesting > ~300 in one expression raises RecursionError) is outside the model; generators keep nesting <= 50. '
+              '(nesting > ~490 in one expression raises RecursionError at the default limit, two frames per level) is outside the model and '
+              'outside the quantifier; generators keep nesting <= 50 (every nesting construct x statement kind) and each run records the '
+              'measured headroom in its notes. '
               'Token SIZES are not bounded: the scale families run every token class (digits of a literal, identifiers, strings, blanks, '
               'comments, argument lists, line counts) up to 20000 (thorough: 100001) characters, across the host limits 2**53 / 17 digits, '
               '1e308 / 1e-324 and the 4300-digit int<->str limit, with the implementation under the DEFAULT digit limit.')
@@ -552,9 +561,116 @@ def start_check(ctx, parser, text, start, res):
     return True
 
 
+# ---------------------------------------------------------------------------------------------------------------------
+# echo family: the text of a statement's expression (or a piece of it) ALSO occurs elsewhere in the same line - inside
+# the keyword in front of it (`if f f:`, `while e e:`, `return n n`, `for in in in in:`, `jumpif (f (f) f`), in the
+# assignment target (`a =a =a`), in the loop variables or the jump target. An implementation that looks the expression
+# up by its text instead of by its position reports the column of the wrong occurrence. The expected column comes from
+# expr_region (offset of the expression by the statement form) + parse_expression on the expression alone.
+# ---------------------------------------------------------------------------------------------------------------------
+
+ECHO_SEPS = [' ', ' ', ' ', ' ', '  ', ' (', '( ', ' ) ', ' + ', ', ', '', '\t']
+
+
+def word_tails(*words):
+    """every suffix of every word: the pieces an expression must begin with to be found again inside the header"""
+    out = []
+    for w in words:
+        out += [w[i:] for i in range(len(w))]
+    return out
+
+
+def gen_echo(ctx, rng):
+    n = ctx.scale(45, 600)
+    for _ in range(n):
+        for kind in ('if', 'elif', 'while', 'for', 'jumpif', 'return', 'assign', 'expr-stmt'):
+            v = rng.choice(['n', 'in', 'i', 'a', 'f', 'e', 'rn', 'x_'])
+            if kind in ('if', 'elif', 'while', 'return'):
+                toks = word_tails(kind) + [kind + ' ' + kind[-1]]
+            elif kind == 'for':
+                toks = word_tails('in', v) + ['in in', v + ' in', 'for']
+            elif kind == 'jumpif':
+                toks = word_tails('jumpif', v) + ['(', '(' + v, v + ' (', 'f (', ')', ') ' + v]
+            elif kind == 'assign':
+                toks = [v, '=', v + ' =', '= ' + v, v + '=', '=' + v, '==']
+            else:
+                toks = [v, v + ' ' + v, '(', ')']
+            indent = rng.choice(['', '', '  ', '\t', ' '])
+            blanks = rng.choice(['', '', ' ', '  '])
+            gap = rng.choice([' ', ' ', '  ', '\t'])
+            if rng.random() < 0.5:
+                # in the rhythm of the header: the same piece, separated like the keyword is from the expression
+                t = rng.choice(toks)
+                sep = '' if kind in ('jumpif', 'expr-stmt') and rng.random() < 0.5 else gap if kind != 'assign' else rng.choice(['', ' '])
+                expr = sep.join([t] * rng.randint(2, 4)) + rng.choice(['', '', ' )', ' (', ' +'])
+            else:
+                expr = rng.choice(toks)
+                for _ in range(rng.choice([1, 1, 2, 2, 3, 4])):
+                    expr += rng.choice(ECHO_SEPS) + rng.choice(toks)
+            if kind in ('if', 'elif', 'while'):
+                line = indent + kind + gap + expr + blanks + ':' + blanks
+            elif kind == 'for':
+                line = indent + 'for' + gap + v + rng.choice(['', ', ' + v, ' ,' + rng.choice(['n', 'in'])]) + ' in' + gap + expr + blanks + ':'
+            elif kind == 'jumpif':
+                line = indent + 'jumpif' + rng.choice(['', ' ', '  ']) + '(' + expr + ')' + gap + rng.choice([v, 'f', 'if', 'jumpif'])
+            elif kind == 'return':
+                line = indent + 'return' + gap + expr + blanks
+            elif kind == 'assign':
+                line = indent + v + rng.choice(['', ' ', '  ']) + '=' + rng.choice(['', ' ', '  ']) + expr + blanks
+            else:
+                line = indent + expr + blanks
+            head = ['if a:'] if kind == 'elif' else []
+            if rng.random() < 0.3:
+                head = [rng.choice(['# c', '', 'zz = 1', line])] + head      # the same line twice: the first error wins, with ITS number
+            yield 'echo:' + kind, '\n'.join(head + [line])
+
+
+# ---------------------------------------------------------------------------------------------------------------------
+# nesting inside the quantifier (depth <= 50) in EVERY statement kind and with every way an expression nests (group, call,
+# call behind other arguments, unary chains, mixed), closed / one closer missing / one too many / all left open / fault in
+# the innermost operand. (How deep the host's stack lets an expression nest beyond that is a host configuration - the
+# Python recursion limit - and outside the quantifier; the streams record the measured headroom as a note.)
+# ---------------------------------------------------------------------------------------------------------------------
+
+NEST_KINDS = [('group', '(', ')'), ('call', 'fn(', ')'), ('call-late-arg', 'fn(a, ', ')'), ('call-spaced', 'fn ( ', ' )'), ('not', '!', ''),
+              ('minus', '-', ''), ('not-group', '!(', ')'), ('minus-call', '-g(', ')'), ('group-binary', '(1 + ', ')')]
+NEST_CLOSURES = ['balanced', 'one-missing', 'one-extra', 'all-open', 'inner-fault']
+
+
+def nested(opener, closer, depth, closure):
+    inner = 'a b' if closure == 'inner-fault' else 'a'
+    closers = {'balanced': depth, 'inner-fault': depth, 'one-missing': depth - 1, 'one-extra': depth + 1, 'all-open': 0}[closure]
+    return opener * depth + inner + closer * closers
+
+
+def gen_nesting(ctx, rng):
+    for depth in [1, 2, 9, 10, 11, 16, 17, 49, 50]:
+        for name, opener, closer in NEST_KINDS:
+            for closure in NEST_CLOSURES:
+                if not closer and closure in ('one-missing', 'all-open'):
+                    continue
+                slots = EXPR_SLOTS if (depth == 50 and not ctx.quick) else rng.sample(EXPR_SLOTS, 2 if depth == 50 else 1)
+                for _, template in slots:
+                    yield 'nest:' + name, template.replace('{e}', nested(opener, closer, depth, closure))
+
+
+def nesting_headroom(parser):
+    """Deepest run of open parentheses parse_script still answers with a parser error (not a RecursionError) from HERE, at
+    the host's current recursion limit - a measurement for the notes, not an oracle (the quantifier stops at 50)."""
+    lo, hi = 0, 4096
+    while lo < hi:
+        mid = (lo + hi + 1) // 2
+        what, _ = parse_outcome(parser, 'x = ' + '(' * mid)
+        if what == 'err':
+            lo = mid
+        else:
+            hi = mid - 1
+    return lo
+
+
 def gen_texts(ctx):
     """(kind, text) cases: corpus, token soup, mutated valid programs, deleted closers, dangling continuation, lone backslash,
-    long lines, deep nesting."""
+    long lines, deep nesting, echo lines, nesting in every statement kind."""
     rng = ctx.rng('texts')
     for text in load_corpus():
         yield 'corpus', text
@@ -605,6 +721,9 @@ def gen_texts(ctx):
         yield 'deep', '\n'.join(opens + ['x = 1'] + ['endif'] * (depth - 1))
         yield 'deep', '\n'.join(opens + ['x = 1'] + ['endif'] * depth)
         yield 'deep', 'x = ' + '(' * depth + '1' + ')' * (depth - 1)
+    yield from gen_nesting(ctx, ctx.rng('nesting'))
+    # the expression text occurs a second time in its line
+    yield from gen_echo(ctx, ctx.rng('echo'))
     # the last logical line is a lone backslash (an empty continued line): must be 'Unterminated line continuation'
     for _ in range(ctx.scale(20, 200)):
         head = [rng.choice(['a = 1', 'fn(a)', 'if a:', 'endif', '# c', '', 'b = a + \\', 'lbl:']) for _ in range(rng.randint(0, 3))]
@@ -629,14 +748,24 @@ def streams(ctx):
                              'piece (sign, leading zeros, fraction, exponent with/without sign, overflow/underflow, 2**53+1, non-ASCII digits), '
                              'scale families: every token class at sizes 15..20000 (thorough 100001) around the host limits (17 digits, 1e308, 1e-324, '
                              '4300-digit int<->str limit, 120-column elision) in every statement kind, alone / with a fault after, before or '
-                             'right behind the big token; non-trivial = a parser error or '
-                             'a model with >= 3 statements')
+                             'right behind the big token; nesting 1..50 of every nesting construct (group, call, call behind other '
+                             'arguments, unary chains, mixed) x closed / one closer missing / one too many / all open / innermost operand '
+                             'faulty x statement kinds; echo lines: the expression text (or its beginning) occurs a second time in its own '
+                             'line - in the keyword in front of it, the assignment target, the loop variables, the jump target (`if f f:`, '
+                             '`while  le  le:`, `for in in in in:`, `jumpif (f (f) f`, `a =a =a`) - in all 8 statement kinds, judged by '
+                             'expression-error-column (offset of the expression by the statement form + parse_expression on it alone); '
+                             'non-trivial = a parser error or a model with >= 3 statements')
     cases = list(gen_texts(ctx))
     # input forms and call histories first: a witness of that stream carries the calls made before it and was seen again in a
     # NEW process (a failure that needs a history met below, in the middle of this process, could not be replayed)
     forms_stream(ctx, parser, cases)
     # every diagnostic kind x every start line x every layout of the offending logical line
     layouts_stream(ctx, parser)
+    # the fault at every column of long lines (elision of the message); host-only characters at every place of a script
+    caret_stream(ctx, parser)
+    host_text_stream(ctx, parser)
+    ctx.notes.append(f'host stack: at recursion limit {sys.getrecursionlimit()} parse_script answers a run of open parentheses up to depth '
+                     f'{nesting_headroom(parser)} with a parser error, deeper ones with RecursionError (outside the quantifier: nesting <= 50)')
     # correspondence with the Lean parser model (when the driver is built)
     resps = None
     if ctx.driver is not None:
@@ -1371,6 +1500,290 @@ def layouts_stream(ctx, parser):
         ctx.notes.append(f'layouts: failing cases per oracle {reported}; the 3 shortest of each are reported as witnesses')
 
 
+# ---------------------------------------------------------------------------------------------------------------------
+# caret: the elision of a long line is arithmetic on (length of the line, column) alone - three branches (window at the
+# left edge / in the middle / at the right edge) with their borders at single columns (61, length - 59, ...). The stream
+# puts the fault at EVERY column of the line, for every line length of the quantifier (0..400) and a scale axis beyond:
+#  * `format`: the message of BareScriptParserError(error, line, column, number) itself, for every length x every column
+#    (the complete domain of the formatting for lengths <= 400); the line is made of characters that do not repeat within
+#    251 places, so a caret that is off by anything but a multiple of 251 sits under a different character;
+#  * `parse`: real faults in all 8 statement kinds with an expression, placed so that the diagnostic of parse_script comes
+#    out at each column 1..length+1 of lines of the lengths around the branch borders (also continued over two lines),
+#    judged by every oracle on a reported error (check_error) and compared with the model.
+# ---------------------------------------------------------------------------------------------------------------------
+
+CARET_CHARS = ([chr(c) for c in range(0x30, 0x3a)] + [chr(c) for c in range(0x41, 0x5b)] + [chr(c) for c in range(0x61, 0x7b)] +
+               [chr(c) for c in range(0xc0, 0x180) if c not in (0xd7, 0xf7)])[:251]
+CARET_IDENT = 'abcdefghijklmnopqrstuvwxyzABCDEFGHIJKLMNOPQRSTUVWXYZ_0123456789'          # 63 characters, starts with a letter
+CARET_KINDS = [('assign', [], 'total = ', ''), ('expr-stmt', [], '', ''), ('if', [], 'if ', ':'), ('elif', ['if a:'], 'elif ', ' :'),
+               ('while', [], 'while ', ':'), ('for', [], 'for v, i in ', ':'), ('jumpif', [], 'jumpif (', ') lbl'), ('return', [], '  return ', '')]
+
+
+def caret_line(length, shift=0):
+    return ''.join(CARET_CHARS[(i + shift) % len(CARET_CHARS)] for i in range(length))
+
+
+def ident_of(length, shift=0):
+    """an identifier of that length whose characters do not repeat within 63 places"""
+    if length <= 0:
+        return ''
+    return CARET_IDENT[shift % 52] + ''.join(CARET_IDENT[(i + shift) % 63] for i in range(1, length))
+
+
+def format_failure(parser, line, column, number, prefix=None):
+    """-> None | (oracle, expected, actual) for the message of one directly constructed error"""
+    exc = parser.BareScriptParserError('Syntax error', line, column, number, prefix)
+    err = {'error': exc.error, 'line': exc.line, 'column': exc.column_number, 'lineNumber': exc.line_number, 'message': str(exc)}
+    probe = fw.Ctx('C06', 'quick', 0)
+    if exc.line != line or exc.column_number != column or exc.line_number != number:
+        return 'error-carries-line-and-column', {'line': line, 'column': column, 'lineNumber': number}, {f: err[f] for f in ('line', 'column', 'lineNumber')}
+    if not caret_ok(probe, err, None):
+        w = probe.witnesses[0]
+        return w['oracle'], w['expected'], w['actual']
+    head = (prefix + '\n' if prefix is not None else '') + 'Syntax error' + (f', line number {number}' if number is not None else '') + ':\n'
+    if not err['message'].startswith(head) or (len(line) <= 120 and err['message'] != head + line + '\n' + ' ' * (column - 1) + '^\n'):
+        return 'message-shape', head + (line if len(line) <= 120 else '<window of the line>') + '\n' + '<caret>\n', err['message']
+    return None
+
+
+def caret_columns(length, rng, every):
+    if every:
+        return range(1, length + 2)
+    cols = set(range(1, 70)) | set(range(length // 2 - 3, length // 2 + 4)) | set(range(length - 66, length + 2))
+    cols |= {rng.randint(1, length + 1) for _ in range(60)}
+    return sorted(c for c in cols if 1 <= c <= length + 1)
+
+
+def caret_parse_text(kind, length, column, spaced, cont):
+    """A program whose expression fault is reported at `column` of a logical line of `length` characters in this statement
+    kind -> (text, expected line) | None when the kind has no room for it. The diagnostic of `A)B` points at the `)`, the
+    one of `A ) B` at the blank in front of it, the one of `A +` (column = length + 1) just past the end."""
+    _, head_lines, head, tail = kind
+    if column == length + 1:
+        if tail:
+            return None
+        a = length - len(head) - 2
+        if a < 1:
+            return None
+        line = head + ident_of(a, column) + ' +'
+    else:
+        a = column - 1 - len(head)
+        fault = ' ) ' if spaced else ')'
+        b = length - len(head) - a - len(fault) - len(tail)
+        if a < (0 if not head and not spaced else 1) or b < 0 or (spaced and b < 1):
+            return None
+        line = head + ident_of(a, column) + fault + ident_of(b, column + 7) + tail
+    phys = [line]
+    if cont and spaced and column != length + 1:
+        cut = len(head) + a            # the blank in front of the `)`
+        phys = [line[:cut] + ' \\', '    ' + line[cut + 1:]]
+    return '\n'.join(head_lines + phys), line
+
+
+def caret_stream(ctx, parser):
+    rng = ctx.rng('caret')
+    st = ctx.stream('caret', 'the fault at EVERY column: (format) the message of a BareScriptParserError built for every line length 0..400 x every '
+                             'column 1..length+1 (complete for the quantifier; thorough also every column of 401..1000), lengths 1000 / 4300 / 4301 / '
+                             '20000 (thorough 100001) at the columns around the three elision branches, with / without line number and prefix line, '
+                             'line text without repetition within 251 places: line, column and number are carried unchanged, the caret sits under '
+                             'line[column-1]; (parse) a real expression fault reported by parse_script at every column 1..length+1 of lines of '
+                             'length 121, 122, 180, 181, 241, 400 (thorough: every 7th length 121..400 and 1000), in all 8 statement kinds with an '
+                             'expression in turn, glued `A)B` / spaced `A ) B` / past the end `A +`, some continued over two physical lines: all oracles '
+                             'on a reported error + the model. The format part is implementation-only (the driver has no message operation; the '
+                             'theorems of C06Caret are about the same arithmetic). non-trivial = the line is longer than 120')
+    failures = {}
+
+    def report(part, oracle, inp, expected, actual):
+        failures[part + ':' + oracle] = failures.get(part + ':' + oracle, 0) + 1
+        if failures[part + ':' + oracle] <= 3:
+            ctx.witness(oracle, inp, expected, actual)
+
+    # (parse)
+    plens = ctx.scale([121, 122, 180, 181, 241, 400], sorted(set(range(121, 401, 7)) | {121, 122, 180, 181, 241, 400, 1000}))
+    cases = []
+    for length in plens:
+        for column in range(1, length + 2):
+            spaced = (column + length) % 3 == 0
+            cont = (column + length) % 12 == 0
+            for turn in range(2 * len(CARET_KINDS)):
+                kind = CARET_KINDS[(column + length + turn) % len(CARET_KINDS)]
+                made = caret_parse_text(kind, length, column, spaced and turn < len(CARET_KINDS), cont)
+                if made is not None:
+                    cases.append((kind[0], length, column, made[0], made[1]))
+                    break
+    resps = None
+    if ctx.driver is not None:
+        resps = model_batch(ctx, [{'op': 'parse', 'chunks': [c[3]], 'start': 1} for c in cases])
+    for ix, (kind, length, column, text, line) in enumerate(cases):
+        what, res = parse_outcome(parser, text)
+        hit = what == 'err' and res['column'] == column and res['line'] == line
+        st.case(['parse', kind, length, column], nontrivial=True,
+                tags=['parse', 'kind:' + kind, 'fault-at-the-planned-column:' + str(hit), what + (':' + res['error'] if what == 'err' else '')])
+        probe = fw.Ctx('C06', 'quick', 0)
+        if what == 'host':
+            report('parse', 'only-parser-error-escapes', {'text': text}, 'BareScriptParserError or a model', res)
+        elif what == 'ok':
+            report('parse', 'faulty-expression-rejected', {'text': text}, 'parser error', 'accepted')
+        elif not check_error(probe, parser, text, res, 1, 'caret'):
+            w = probe.witnesses[0]
+            report('parse', w['oracle'], w['input'], w['expected'], w['actual'])
+        if resps is not None and what == 'err':
+            ctx.compare('parse-caret', text, lay_fields(res), resps[ix])
+    # (format)
+    full = ctx.scale(400, 1000)
+    lengths = list(range(0, full + 1)) + [n for n in [1000, 4300, 4301, 20000] + ctx.scale([], [65536, 100001]) if n > full]
+    for length in lengths:
+        line = caret_line(length, rng.randint(0, 250))
+        number = rng.choice([1, 7, 12345, None])
+        prefix = rng.choice([None, None, 'Included from "lib.bare"'])
+        branches = set()
+        for column in caret_columns(length, rng, length <= full):
+            if length > 120:
+                left = column - 1 - 60
+                branches.add('left' if left < 0 else 'right' if left + 120 > length else 'middle')
+            bad = format_failure(parser, line, column, number, prefix)
+            if bad is not None:
+                report('format', bad[0], {'construct': {'line': line, 'column': column, 'lineNumber': number, 'prefix': prefix}}, bad[1], bad[2])
+        st.case(['format', length, line[:8], number, prefix], nontrivial=length > 120,
+                tags=['format', 'length:' + ('<=120' if length <= 120 else '121-400' if length <= 400 else '>400')] +
+                     ['branch:' + b for b in sorted(branches)])
+    if any(n > 3 for n in failures.values()):
+        ctx.notes.append(f'caret: failing cases per oracle {failures}; the first 3 of each are reported as witnesses')
+
+
+# ---------------------------------------------------------------------------------------------------------------------
+# host-text: what a Python str can hold and a host hands over without looking - lone surrogates (json.loads('"\\ud83d"'),
+# bytes decoded with errors='surrogateescape', os.fsdecode, a UTF-16 text cut inside a pair), a byte order mark, NUL and
+# other control characters, the line separators str.splitlines knows and the language does not (VT, FF, FS, GS, RS, NEL,
+# LS, PS), Unicode blanks, non-characters, private use, astral letters / digits / emoji, combining marks, full-width
+# look-alikes of the punctuation - at every place of a script (string literal, comment, first character of the text / of
+# a later line, operand, inside a name, label, include URL, bracketed name, around a continuation backslash, after a
+# block keyword, in a long elided line, with CRLF), once, twice and 64 times, as one string and as lines in an iterable.
+# The Lean model has no such values (String holds scalar values only; \\w, \\d, \\s are ASCII there): implementation-side
+# oracles only.
+# ---------------------------------------------------------------------------------------------------------------------
+
+HOST_CHARS = [
+    ('surrogate-high', '\ud800'), ('surrogate-high-last', '\udbff'), ('surrogate-low', '\udc00'), ('surrogate-low-last', '\udfff'),
+    ('surrogate-cut-emoji', '\ud83d'), ('surrogate-reversed-pair', '\ude00\ud83d'), ('surrogate-escaped-byte', '\udcff'),
+    ('surrogate-escaped-byte-80', '\udc80'), ('bom', '\ufeff'), ('bom-swapped', '\ufffe'), ('nul', '\x00'), ('ctrl-01', '\x01'), ('backspace', '\x08'),
+    ('esc', '\x1b'), ('del', '\x7f'), ('c1-80', '\x80'), ('nel', '\x85'), ('nbsp', '\xa0'), ('soft-hyphen', '\xad'), ('zwsp', '\u200b'),
+    ('zwj', '\u200d'), ('rlo', '\u202e'), ('word-joiner', '\u2060'), ('line-separator', '\u2028'), ('paragraph-separator', '\u2029'),
+    ('ideographic-space', '\u3000'), ('en-quad', '\u2000'), ('vt', '\x0b'), ('ff', '\x0c'), ('fs', '\x1c'), ('gs', '\x1d'), ('rs', '\x1e'), ('us', '\x1f'),
+    ('noncharacter', '\uffff'), ('replacement', '\ufffd'), ('private-use', '\ue000'), ('astral-emoji', '\U0001f600'), ('astral-last', '\U0010ffff'),
+    ('astral-letter', '\U00010400'), ('astral-digit', '\U0001d7d8'), ('combining', 'e\u0301'), ('combining-alone', '\u0301'), ('fullwidth-digit', '\uff11'),
+    ('arabic-digit', '\u0663'), ('letter', '\u00e9'), ('superscript-digit', '\u00b2'), ('roman-numeral', '\u2167'), ('fullwidth-paren', '\uff08'),
+    ('fullwidth-apostrophe', '\uff07'), ('fullwidth-backslash', '\uff3c'), ('fullwidth-colon', '\uff1a'), ('dotless-i', '\u0131'), ('sharp-s', '\u00df'),
+]
+
+HOST_SLOTS = [
+    ('string', "a = 's{x}t'"), ('string-double', 'a = "{x}"'), ('string-alone', "'{x}'"), ('string-in-call', "fn(a, '{x}', b)"),
+    ('comment', '# c{x}c\na = 1'), ('comment-first', '#{x}\na = 1'), ('text-start', '{x}a = 1'), ('text-start-comment', '{x}# c\na = 1'),
+    ('text-start-blank', '{x}\na = 1'), ('line-start', 'a = 1\n{x}b = 2'), ('indent', '  {x}  a = 1'), ('line-end', 'a = 1{x}'),
+    ('text-end', 'a = 1\n{x}'), ('operand', 'a = {x}'), ('between', 'a = b {x} c'), ('glued', 'a = b{x}c'), ('in-name', 'a{x}b = 1'), ('alone', '{x}'),
+    ('number', 'a = 1{x}'), ('number-fraction', 'a = 1.{x}5'), ('exponent', 'a = 1e+{x}'), ('if', 'if {x}:\nendif'),
+    ('if-string', "if a == '{x}':\n  b = 1\nendif"), ('after-colon', 'if a:{x}\nendif'), ('keyword-gap', 'if{x}a:\nendif'),
+    ('function-name', 'function f{x}():\nendfunction'), ('function-arg', 'function f(a{x}):\nendfunction'), ('label', 'l{x}:'), ('jump', 'jump l{x}'),
+    ('include-system', 'include <u{x}.bare>'), ('include', "include 'u{x}.bare'"), ('bracket', 'a = [b{x}c]'), ('call-arg', "fn(a, {x})"),
+    ('continued', "a = fn(1, \\\n  '{x}', \\\n  2)"), ('after-backslash', 'a = 1 + \\{x}\n  2'), ('before-backslash', "a = 's' + {x}\\\n  2"),
+    ('lone-continuation', 'a = 1 + \\\n{x}\n  2'), ('closer', 'if a:\nendif{x}'), ('open-block', "while a:\n  b = '{x}'"), ('fault-after', "a = '{x}'\nb = (1"),
+    ('fault-same-line', "a = '{x}' )"), ('fault-before', "b = (1\na = '{x}'"), ('long-line', "a = '" + 'z' * 150 + "{x}' ) + b"),
+    ('long-line-left', "a = '{x}' ) + '" + 'z' * 150 + "'"), ('crlf', "a = '{x}'\r\nb = {x}\r\n"), ('for', "for v in '{x}':\n  w = v\nendfor"),
+    ('return', "function f():\n  return '{x}'\nendfunction"), ('jumpif', "l:\njumpif (a == '{x}') l"),
+]
+HOST_LITERAL_SLOTS = {'string', 'string-double', 'string-alone', 'string-in-call', 'if-string', 'continued', 'for', 'return', 'jumpif'}
+HOST_FORMS = ['list', 'tuple', 'generator', 'str-subclass', 'only-iter', 'list-of-str-subclass']
+
+
+def string_literals(obj, out=None):
+    out = [] if out is None else out
+    if isinstance(obj, dict):
+        if isinstance(obj.get('string'), str):
+            out.append(obj['string'])
+        for v in obj.values():
+            string_literals(v, out)
+    elif isinstance(obj, list):
+        for v in obj:
+            string_literals(v, out)
+    return out
+
+
+def host_text_failures(parser, case):
+    """-> [(oracle, expected, actual)] for one case {'text', 'start', 'form', 'literal'} of the host-text stream"""
+    text, start = case['text'], case['start']
+    what, res = parse_outcome(parser, text, start)
+    if what == 'host':
+        return [('only-parser-error-escapes', 'BareScriptParserError or a model', res)]
+    bad = []
+    probe = fw.Ctx('C06', 'quick', 0)
+    if what == 'err':
+        check_error(probe, parser, text, res, start, 'host-text')
+        position_metamorphic(probe, parser, text, res, start, 'host-text')
+    else:
+        ll = logical_lines(text)
+        if ll is None:
+            bad.append(('dangling-continuation-rejected', 'parser error', 'accepted'))
+        elif open_depth(ll) != 0:
+            bad.append(('open-block-rejected', 'parser error (unbalanced blocks)', 'accepted'))
+        if case.get('literal') is not None and case['literal'] not in string_literals(res):
+            bad.append(('string-literal-kept', case['literal'], string_literals(res)))
+        gone = line_without_effect(parser, text, res)
+        if gone is not None:
+            bad.append(('every-line-has-an-effect', 'deleting line %d is an error or changes the model' % gone, 'same model'))
+    what1, res1 = (what, res) if start == 1 else parse_outcome(parser, text)
+    if what1 != 'host':
+        prepend_check(probe, parser, text, ['# c', '', 'zz = 1'], what1, res1)
+        if what1 == 'err' and res1['lineNumber'] is not None and start != 1:
+            start_check(probe, parser, text, start, res1)
+    bad += [(w['oracle'], w['expected'], w['actual']) for w in probe.witnesses]
+    # the same text as lines in an iterable / as a str subclass
+    call = {'form': case['form'], 'chunks': re.split(r'\r?\n', text), 'start': start, 'kw': False, 'twice': True}
+    bad += [(b[1], b[2], b[3]) for b in run_session(parser, [call])]
+    return bad
+
+
+def host_text_stream(ctx, parser):
+    rng = ctx.rng('host-text')
+    st = ctx.stream('host-text', 'every character class only a host-language string has (lone high / low surrogates as json.loads, surrogateescape, '
+                                 'os.fsdecode or a cut UTF-16 text produce them, reversed pair, byte order mark and its swap, NUL, control, C1, the '
+                                 'line separators of str.splitlines - VT FF FS GS RS US NEL LS PS -, Unicode blanks, zero-width and bidi marks, '
+                                 'non-characters, private use, astral emoji / letter / digit, combining marks, non-ASCII digits and letters, '
+                                 'full-width look-alikes of ( \' \\ :) x every place of a script (48 slots: string literal of every statement kind, '
+                                 'comment, first character of the text / of a later line, operand, name, number, label, jump, include, bracketed '
+                                 'name, around a continuation backslash, after a block keyword, lines elided in the message, CRLF) x 1 / 2 / 64 '
+                                 'repetitions, start line 1 or offset, as one string and as lines in an iterable / str subclass. Oracles on the '
+                                 'implementation only (the Lean String has scalar values only and ASCII classes): only BareScriptParserError '
+                                 'escapes; a reported error names a logical line of the text, its text, a column inside it, caret under that '
+                                 'character; prepending lines shifts the number; an accepted text keeps its string literal and every line has an '
+                                 'effect; the iterable form gives the same outcome. non-trivial = every case')
+    failed = []
+    cases = []
+    for cname, x in HOST_CHARS:
+        for sname, template in HOST_SLOTS:
+            reps = [1] + ([rng.choice([2, 64])] if rng.random() < ctx.scale(0.15, 1.0) else [])
+            for n in reps:
+                text = template.replace('{x}', x * n)
+                literal = 's' + x * n + 't' if sname == 'string' else x * n if sname in HOST_LITERAL_SLOTS else None
+                cases.append({'text': text, 'start': rng.choice([1, 1, 1, 40]), 'form': rng.choice(HOST_FORMS), 'literal': literal,
+                              'char': cname, 'slot': sname, 'times': n})
+    for ix, case in enumerate(cases):
+        bad = host_text_failures(parser, case)
+        what, res = parse_outcome(parser, case['text'], case['start'])
+        st.case([case['text'], case['start'], case['form']], nontrivial=True,
+                tags=['char:' + case['char'], 'slot:' + case['slot'], 'times:' + str(case['times']), 'form:' + case['form'],
+                      what + (':' + res['error'] if what == 'err' else '')])
+        if bad:
+            failed.append((len(case['text']), ix, bad))
+    reported = {}
+    for _, ix, bad in sorted(failed):
+        oracle, expected, actual = bad[0]
+        reported[oracle] = reported.get(oracle, 0) + 1
+        if reported[oracle] <= 3:
+            ctx.witness(oracle, dict(cases[ix], host_text=True), expected, actual, all_failed_oracles=sorted({b[0] for b in bad}))
+    if any(n > 3 for n in reported.values()):
+        ctx.notes.append(f'host-text: failing cases per oracle {reported}; the 3 shortest of each are reported as witnesses')
+
+
 SESSION_ORACLES = ('input-form-same-outcome', 'input-object-left-alone', 'repeat-call-same-outcome')
 
 
@@ -1403,6 +1816,12 @@ def replay(witness):
         return replay_session(parser, witness)
     if 'expect' in inp:                 # a case of the layouts stream carries its own expectation
         return any(b[0] == witness['oracle'] for b in layout_failures(parser, inp))
+    if 'construct' in inp:              # caret stream, format part
+        c = inp['construct']
+        bad = format_failure(parser, c['line'], c['column'], c['lineNumber'], c['prefix'])
+        return bad is not None and bad[0] == witness['oracle']
+    if inp.get('host_text'):
+        return any(b[0] == witness['oracle'] for b in host_text_failures(parser, inp))
     what, res = parse_outcome(parser, inp['text'], inp.get('start', 1))
     probe = fw.Ctx('C06', 'quick', 0)
     if what == 'host':
@@ -1429,3 +1848,9 @@ def replay(witness):
         if ll is None or open_depth(ll) != 0:
             return True
     return bool(probe.witnesses)
+
+
+# extension: regex AST + backtracking matcher, pattern pins, scanner = regex theorems (DESIGN 13.9)
+from props import c06x  # noqa: E402  pylint: disable=wrong-import-position
+c06x.EXTRA_ROOTS = ['Drv.C06X']
+fw.attach_extension(globals(), c06x)
